@@ -11,6 +11,11 @@ spec('inv_integ', {'g': Rec('Integrity')}, Bool,
 spec('inv_cipher', {'c': Rec('Cipher')}, Bool,
      'hasher_index(c._algorithm) == 1 and c._transform.keylen is not None '
      'and (c._transform.keylen == 128 or c._transform.keylen == 192 or c._transform.keylen == 256)')
+# what Cipher.__init__ guarantees (algorithms.AES.key_sizes also lists 512 bits, usable only with XTS)
+spec('inv_cipher_ctor', {'c': Rec('Cipher')}, Bool,
+     'hasher_index(c._algorithm) == 1 and c._transform.keylen is not None '
+     'and (c._transform.keylen == 128 or c._transform.keylen == 192 or c._transform.keylen == 256 '
+     'or c._transform.keylen == 512)')
 spec('inv_crypto', {'k': Rec('Crypto')}, Bool,
      'inv_cipher(k.cipher) and inv_integ(k.integrity) and inv_prf(k.prf) '
      'and len(k.sk_e) * 8 == k.cipher._transform.keylen')
@@ -50,13 +55,13 @@ contract('crypto.Cipher.__init__', params={'transform': Rec('Transform')}, props
          raises={'AssertionError': 'transform.type != 1', 'KeyError': 'transform.id != 12',
                  'message.InvalidSyntax': 'transform.keylen is not None',
                  'TypeError': 'transform.keylen is None'},
-         ensures={'transform': 'result._transform == transform',
+         ensures={'transform': 'result._transform == transform', 'inv': 'inv_cipher_ctor(result)',
                   'valid': 'hasher_index(result._algorithm) == 1 and transform.keylen is not None and '
                            '(transform.keylen == 128 or transform.keylen == 192 or transform.keylen == 256 '
                            'or transform.keylen == 512)'})
-contract('crypto.Cipher.block_size', params={}, returns=Int, props=P, requires=['inv_cipher(self)'],
+contract('crypto.Cipher.block_size', params={}, returns=Int, props=P, requires=['inv_cipher_ctor(self)'],
          ensures={'aes': 'result == 16'})
-contract('crypto.Cipher.key_size', params={}, returns=Int, props=P, requires=['inv_cipher(self)'],
+contract('crypto.Cipher.key_size', params={}, returns=Int, props=P, requires=['inv_cipher_ctor(self)'],
          ensures={'size': 'result == self._transform.keylen // 8'})
 
 # library part (AES-CBC through `cryptography`): trusted, probed natively by the smoke test
